@@ -85,7 +85,15 @@ def itemP {ρ} (rr : P (Option ρ)) : P (Item ρ) := do
     let a ← num
     let b ← num
     let d ← num
-    pure (.reject (some ⟨c, a, b, d⟩))
+    pure (.reject (if (c, a, b, d) == (554, 5, 7, 0) then parseReject [] else some ⟨c, a, b, d, defaultRejectMsg⟩))
+  | "RJA" => do
+    -- the arguments of the directive as configured ("-" = the empty string): the model reads them itself
+    let args ← counted (do
+      if (← peek) == "-" then
+        let _ ← tok
+        pure ([] : Str)
+      else str)
+    pure (.reject (parseReject args))
   | _ => if t.startsWith "X" then pure .other else failure
 
 def srcNodeP {ρ} (rr : P (Option ρ)) : P (SrcN ρ) := do
@@ -200,7 +208,8 @@ def showLoadErr : LoadErr → String
   | .noDecision => "noDecision"
 
 def showRefusal : Refusal → String
-  | .reply r => s!"{r.code}/{r.e0}.{r.e1}.{r.e2}"
+  | .reply r => s!"{r.code}/{r.e0}.{r.e1}.{r.e2}" ++
+      (if r.msg.isEmpty || r.msg == defaultRejectMsg then "" else "/" ++ hexRunes r.msg)
   | .malformed => "malformed"
   | .badReplacement => "badrepl"
   | .panic => "panic"
